@@ -56,3 +56,10 @@ Fixpoint be_enc (n : nat) (v : N) : list N :=
 
 (* n-th element as N-length helpers *)
 Definition len {A} (l : list A) : N := N.of_nat (length l).
+
+Fixpoint list_eq_N (a b : list N) : bool :=
+  match a, b with
+  | [], [] => true
+  | x :: a', y :: b' => (x =? y) && list_eq_N a' b'
+  | _, _ => false
+  end.
